@@ -266,7 +266,7 @@ def owners(div):
         if fn in ("stop", "wait", "destroy") and kind == "hang":
             own |= {"C01"}
         return own
-    if isinstance(div.get("call"), dict) and div["call"].get("e") == "conc":
+    if div.get("conc") or (isinstance(div.get("call"), dict) and div["call"].get("e") == "conc"):
         return {"C20"} | ({"C11"} if "kids" in (div.get("keys") or []) else set())
     if fn in ("start", "fork", "clone_start", "method", "consts") and isinstance(div.get("call"), dict) and "op" in div.get("call"):
         return {"C19"}
